@@ -35,7 +35,7 @@ def main(argv):
             row["tests_pass"] = " passed" in out and "failed" not in out
             for c in claimed():
                 t0 = time.time()
-                rc, out = sh([os.path.join(VERIF, "check"), c, "--tier", "quick"], cwd=VERIF, timeout=3000)
+                rc, out = sh([os.path.join(VERIF, "check"), c, "--tier", "quick"], cwd=VERIF, timeout=1500)
                 line = next((l for l in out.splitlines() if l.startswith("VIOLATION")), "")
                 if rc == 0 and not line:
                     row["quiet"].append(c)
